@@ -29,6 +29,9 @@ def scenario(ctx, job):
         if job.get('migrate'):
             r = b.call('auto_add_nodes', RStr('c1'), 4); assert r.variant == 0
             r = b.call('migrate_slots', RStr('c1')); assert r.variant == 0
+        if job.get('scale_down'):
+            # a removed chunk whose masters keep no stable slots and feed several destinations (most postponed by the limit)
+            r = b.call('migrate_slots_to_scale_down', RStr('c1'), 4 * job['scale_down']); assert r.variant == 0, r
         limit = job.get('limit', 0)
         des = designated(b, limit)
         proxies = cluster_proxies(b)
@@ -49,6 +52,9 @@ def scenario(ctx, job):
             maps[a] = e.run_func(e.find_fn('ClusterBackendMap', 'from_cluster_map'), [Ref(Cell(meta)), Ref(Cell(lf)), Ref(Cell(pf)), False])
         s = z3.BitVec('slot', 64); e.assume(z3.ULT(s, SLOT_NUM))
         items = []
+        # every slot has a designated master in the view the proxies are given (the limited view when a limit is set)
+        items.append(('every-slot-has-a-designated-master', 'C02/slot-without-designated-master', zor([in_ranges(s, rs) for rs, tg, na, pa, _ in des if tg != 'Importing']),
+                      lambda m: {'slot': concretize(s, m), 'limit': limit, 'designated': [([(concretize(x, m), concretize(y, m)) for x, y in rs], tg, na, pa) for rs, tg, na, pa, _ in des]}))
         def route(a):
             t = MockTask(s)
             r = send(e, maps[a], t)
@@ -91,7 +97,7 @@ def scenario(ctx, job):
         ctx.require_all(e, items)
         return len(proxies)
     def setup(e): e.max_steps = 80_000_000
-    res = ctx.explore('pipeline chunks=%d migrate=%s roles=%s limit=%s%s' % (job['chunks'], job.get('migrate'), job.get('roles'), job.get('limit', 0), ' one-slot tiles' if job.get('narrow') else ''), run, engine_setup=setup)
+    res = ctx.explore('pipeline chunks=%d migrate=%s roles=%s limit=%s%s' % (job['chunks'], job.get('migrate'), job.get('roles'), job.get('limit', 0), (' one-slot tiles' if job.get('narrow') else '') + (' scale-down to %d' % job['scale_down'] if job.get('scale_down') else '')), run, engine_setup=setup)
     ctx.ops += sum(p.value or 0 for p in res if p.kind == 'ok')
     ctx.sample({'scenario': 'pipeline', 'paths': len(res)})
 
@@ -193,7 +199,7 @@ HISTORIES = [['A'], ['A', 'A'], ['A', 'A', ''], ['AB', 'B', 'B'], ['A', 'AB', 'B
 
 def run(ctx):
     quick = ctx.tier == 'quick'
-    jobs = [{'chunks': 1}, {'chunks': 1, 'narrow': True}, {'chunks': 1, 'roles': True}, {'chunks': 1, 'migrate': True, 'extra': 1}, {'chunks': 2}]
+    jobs = [{'chunks': 3, 'scale_down': 2, 'limit': 1}, {'chunks': 1}, {'chunks': 1, 'narrow': True}, {'chunks': 1, 'roles': True}, {'chunks': 1, 'migrate': True, 'extra': 1}, {'chunks': 2}]
     if not quick:
         jobs += [{'chunks': 2, 'roles': True}, {'chunks': 1, 'migrate': True, 'extra': 1, 'roles': True}, {'chunks': 1, 'migrate': True, 'extra': 1, 'limit': 1}, {'chunks': 2, 'migrate': True, 'extra': 1}]
     ctx.bounds = {'clusters': '1-2 chunks (+1 during a scale-out migration)', 'slot': 'symbolic over all 16384', 'role positions': 'enumerated', 'encoding': 'plain UMCTL SETCLUSTER arguments'}
